@@ -487,6 +487,14 @@ fn c13(seed: u64, thorough: bool) -> Scenario {
         g.world.files[fi].path = format!("{stem}.py");
         g.world.files[fi].blocks.clear();
     }
+    if g.world.files[fi].path.contains('\\') {
+        // files with a backslash in their name are kept out of diffs (git quotes such paths);
+        // the carrier file must be free to appear in one
+        let renamed = g.world.files[fi].path.replace('\\', "_");
+        if !g.world.files.iter().any(|f| f.path == renamed) {
+            g.world.files[fi].path = renamed;
+        }
+    }
     let pos = g.rng.below(g.world.files[fi].blocks.len() + 1);
     // "placed on any block": now and then as a nested block of a rule-less parent
     let block = if g.rng.chance(1, 5) {
